@@ -117,16 +117,18 @@ func uniqifyName(definitions spec.Definitions, name string) (string, bool) {
 		return name, isOAIGen
 	}
 
-	unq := true
-	for k := range definitions {
-		if strings.EqualFold(k, name) {
-			unq = false
-
-			break
+	// names are compared regardless of case: generated code would not tell them apart
+	known := func(candidate string) bool {
+		for k := range definitions {
+			if strings.EqualFold(k, candidate) {
+				return true
+			}
 		}
+
+		return false
 	}
 
-	if unq {
+	if !known(name) {
 		return name, isOAIGen
 	}
 
@@ -134,12 +136,10 @@ func uniqifyName(definitions spec.Definitions, name string) (string, bool) {
 	isOAIGen = true
 	var idx int
 	unique := name
-	_, known := definitions[unique]
 
-	for known {
+	for known(unique) {
 		idx++
 		unique = fmt.Sprintf("%s%d", name, idx)
-		_, known = definitions[unique]
 	}
 
 	return unique, isOAIGen
